@@ -5,6 +5,7 @@
 package main
 
 import (
+	"context"
 	"encoding/json"
 	"flag"
 	"fmt"
@@ -13,6 +14,7 @@ import (
 	"sort"
 	"strings"
 	"sync"
+	"time"
 
 	"github.com/rogpeppe/go-internal/par"
 
@@ -37,6 +39,39 @@ var graphs = []graph{
 	{"G7 empty", nil, nil},
 	{"G8 1->{2},{3 pre}", []int{1, 3}, map[int][]int{1: {2}, 3: {2}}},
 	{"G9 fan 1->{2,3,4}", []int{1}, map[int][]int{1: {2, 3, 4}}},
+	// item 0 is the nil interface value, a legal item like any other comparable value
+	{"G10 nil item pre-added {nil,1}", []int{0, 1}, nil},
+	{"G11 nil item added by f 1->{nil,2}", []int{1}, map[int][]int{1: {0, 2}}},
+	// an f that adds more items than the queue held when it started
+	{"G12 tree 1->{2,3},2->{4,5}", []int{1}, map[int][]int{1: {2, 3}, 2: {4, 5}}},
+	{"G13 tree {1,2 pre},1->{3,4,5}", []int{1, 2}, map[int][]int{1: {3, 4, 5}}},
+}
+
+// itemOf maps a graph node to the value handed to Work; node 0 is the nil
+// interface, node 5 a string, the others ints, so that items of several dynamic
+// types (all comparable) are in play.
+func itemOf(i int) any {
+	switch i {
+	case 0:
+		return nil
+	case 5:
+		return "five"
+	}
+	return i
+}
+
+func idOf(item any) int {
+	switch v := item.(type) {
+	case nil:
+		return 0
+	case string:
+		if v == "five" {
+			return 5
+		}
+	case int:
+		return v
+	}
+	panic(fmt.Sprintf("f was called with a value that was never added: %#v", item))
 }
 
 func (g graph) reachable() map[int]bool {
@@ -96,10 +131,10 @@ func (in *instance) body() {
 	w := new(par.Work)
 	in.w = w
 	for _, it := range g.Pre {
-		w.Add(it)
+		w.Add(itemOf(it))
 	}
 	w.Do(in.sc.N, func(item any) {
-		i := item.(int)
+		i := idOf(item)
 		o.mu.Lock()
 		o.Entered[i]++
 		o.InProg++
@@ -109,7 +144,7 @@ func (in *instance) body() {
 		o.mu.Unlock()
 		sched.Point(sched.Op{Kind: "f-begin", Obj: fmt.Sprint(i)})
 		for _, c := range g.Adds[i] {
-			w.Add(c)
+			w.Add(itemOf(c))
 		}
 		sched.Point(sched.Op{Kind: "f-end", Obj: fmt.Sprint(i)})
 		o.mu.Lock()
@@ -273,7 +308,7 @@ func main() {
 			switch {
 			case r.Thorough():
 				scs = append(scs, scenario{n, gi, -1})
-			case n <= 2 || !strings.HasPrefix(graphs[gi].Name, "G9"):
+			case n <= 2 || !(strings.HasPrefix(graphs[gi].Name, "G9") || strings.HasPrefix(graphs[gi].Name, "G12") || strings.HasPrefix(graphs[gi].Name, "G13")):
 				scs = append(scs, scenario{n, gi, -1})
 			default:
 				scs = append(scs, scenario{n, gi, 2})
@@ -375,13 +410,20 @@ func raceCheck() []kit.V {
 	if bin == "" {
 		return nil
 	}
-	cmd := exec.Command(bin, "-racepass")
+	// A Do that never returns would hang the free-running pass: it normally
+	// takes seconds, so ten minutes without finishing is reported.
+	ctx, cancel := context.WithTimeout(context.Background(), 10*time.Minute)
+	defer cancel()
+	cmd := exec.CommandContext(ctx, bin, "-racepass")
 	cmd.Env = append(os.Environ(), "GORACE=halt_on_error=1 exitcode=66")
 	out, err := cmd.CombinedOutput()
 	if err == nil {
 		return nil
 	}
 	s := string(out)
+	if ctx.Err() != nil {
+		return []kit.V{{Key: "free-running-hang par", What: "the free-running pass did not finish within 10 minutes (a Do call never returned):\n" + firstLines(s, 5), Case: kase{}, NoConfirm: true}}
+	}
 	if strings.Contains(s, "WARNING: DATA RACE") {
 		return []kit.V{{Key: "data-race par", What: "race detector report in the free-running pass:\n" + firstLines(s, 30), Case: kase{}, NoConfirm: true}}
 	}
